@@ -586,10 +586,85 @@ fn fuzz(ctx: &WorkerCtx, rep: &mut WorkerReport, rng: &mut Rng, state: &'static 
     Some(true)
 }
 
+/// A sample of hostile requests through the real HTTP server (framing layer): the server must keep
+/// answering a plain request afterwards.
+fn http_sample(ctx: &WorkerCtx, rep: &mut WorkerReport, rng: &mut Rng, btc: &str) {
+    use crate::http;
+    let dir = rpc::fresh_dir("C09");
+    let port = http::free_port();
+    let mut c = rpc::make_config("regtest", true, btc, dir.to_str().unwrap());
+    c.brc20_prog_rpc_server_url = format!("127.0.0.1:{}", port);
+    c.max_request_size = 256 * 1024;
+    c.batch_request_limit = 10;
+    let handle = match rpc::rt().block_on(async { brc20_prog::start(c).await.map_err(|e| e.to_string()) }) {
+        Ok(h) => h,
+        Err(e) => {
+            rep.inconclusive(format!("http sample: server did not start: {}", e));
+            return;
+        }
+    };
+    let addr = format!("127.0.0.1:{}", port);
+    let t = Duration::from_secs(20);
+    let alive = |rep: &mut WorkerReport, after: &str| -> bool {
+        match http::post(&addr, &[], r#"{"jsonrpc":"2.0","id":1,"method":"eth_chainId","params":[]}"#, t) {
+            Ok(r) if r.body.contains("\"result\"") => true,
+            other => {
+                violation(rep, "C09", ctx.seed, "http-liveness-lost", format!("after {} the HTTP server no longer answers eth_chainId: {:?}", after, other.map(|r| r.body).unwrap_or_else(|e| e)), json!({"after": after}));
+                false
+            }
+        }
+    };
+    let deep = format!("{}1{}", "[".repeat(5000), "]".repeat(5000));
+    let big = format!(r#"{{"jsonrpc":"2.0","id":1,"method":"web3_sha3","params":["0x{}"]}}"#, "ab".repeat(200_000));
+    let batch_over: String = format!("[{}]", (0..40).map(|i| format!(r#"{{"jsonrpc":"2.0","id":{},"method":"eth_blockNumber","params":[]}}"#, i)).collect::<Vec<_>>().join(","));
+    let mut bodies: Vec<(String, String)> = vec![
+        ("empty body".into(), "".into()),
+        ("not json".into(), "hello".into()),
+        ("truncated json".into(), r#"{"jsonrpc":"2.0","id":1,"method":"eth_blockNum"#.into()),
+        ("deeply nested json".into(), deep.clone()),
+        ("nested params".into(), format!(r#"{{"jsonrpc":"2.0","id":1,"method":"eth_call","params":{}}}"#, deep)),
+        ("body over the size limit".into(), big),
+        ("batch over the limit".into(), batch_over),
+        ("empty batch".into(), "[]".into()),
+        ("batch of garbage".into(), "[1,null,\"x\",{}]".into()),
+        ("id as object".into(), r#"{"jsonrpc":"2.0","id":{"a":1},"method":"eth_blockNumber","params":[]}"#.into()),
+        ("method as number".into(), r#"{"jsonrpc":"2.0","id":1,"method":5,"params":[]}"#.into()),
+        ("unknown method".into(), r#"{"jsonrpc":"2.0","id":1,"method":"eth_nope","params":[]}"#.into()),
+        ("huge id".into(), r#"{"jsonrpc":"2.0","id":123456789012345678901234567890,"method":"eth_blockNumber","params":[]}"#.into()),
+        ("nul bytes".into(), r#"{"jsonrpc":"2.0","id":1,"method":"eth_blockNumber\u0000","params":[]}"#.into()),
+    ];
+    let names = ["eth_call", "eth_getLogs", "brc20_deploy", "brc20_transact", "eth_getStorageAt", "eth_callMany", "brc20_mine", "web3_sha3"];
+    for i in 0..40u64 {
+        let m = rng.pick(&names).to_string();
+        let st = Tmpl { tool: "0x00000000000000000000000000000000000000aa".into(), tx_hash: hist::ZERO_HASH.into(), block_hash: hist::ZERO_HASH.into(), fresh_hash: format!("0x{:064x}", 0x477_0000u64 + i), raw_tx: "0x".into(), next_height: 0, n: i };
+        let base = template(&m, &st).unwrap_or(json!([]));
+        let p = mutate_value(rng, &base, 0);
+        let p = if m == "brc20_mine" { json!({"block_count": rng.below(3), "timestamp": 1}) } else { p };
+        bodies.push((format!("mutated {}", m), json!({"jsonrpc": "2.0", "id": i, "method": m, "params": p}).to_string()));
+    }
+    for (what, body) in bodies {
+        let r = http::post(&addr, &[], &body, t);
+        rep.evaluations += 1;
+        rep.nontrivial(format!("http:{}:{}", what.split(' ').next().unwrap_or(""), match &r { Ok(x) => x.status.to_string(), Err(_) => "io-error".into() }));
+        if !alive(rep, &what) {
+            break;
+        }
+    }
+    rep.count("http_requests", 1);
+    let _ = handle.stop();
+    rpc::rt().block_on(async { handle.stopped().await });
+    rpc::remove_dir(&dir);
+}
+
 pub fn worker(ctx: &WorkerCtx) -> WorkerReport {
-    crate::setup_env("regtest", true);
+    let btc = crate::setup_env("regtest", true);
     let mut rep = WorkerReport::default();
     let mut rng = ctx.rng();
+    if ctx.shard % 8 == 0 {
+        http_sample(ctx, &mut rep, &mut rng, &btc);
+        // start() replaced the process configuration: restore the harness one
+        rpc::set_global_config("regtest", true, &btc);
+    }
     let names: Vec<String> = {
         let d = rpc::fresh_dir("C09");
         let i = Inst::open(&d).expect("open");
